@@ -186,6 +186,9 @@ def census(repo):
 def is_import_time(repo, writer):
     if writer.endswith("::<module>") or writer in IMPORT_TIME:
         return True
+    from ..rules.escape import import_time_functions
+    if writer in import_time_functions(repo):
+        return True
     base = writer.split("::")[1]
     # decorator bodies registered at import
     return writer in ("devices::register_device.decorator", "devices::register_device", "metacommand_impl::_metacommand_impl", "formats::file_format", "operators::operator", "operators::operator.decorator", "insns::init")
@@ -215,9 +218,9 @@ def rule_inventory(ck):
     ck.global_classes = classes
     need = {("deferred", "TryCompute.depth"), ("deferred", "Awaiting.awaiting_stack"), ("reports", "handle_reports.handlers_stack"), ("deferred", "Deferred.next_instance_id"),
             ("insns", "instructions"), ("metacommand_impl", "metacommands"), ("builtins", "builtin_commands"), ("formats", "file_formats")}
-    missing = need - set(writes)
+    missing = need - set(writes) - {k for k in need if k in objs}      # still defined, just no longer written after its definition: fine
     if missing:
-        ck.unknown(f"global objects confirmed by hand are no longer seen as written: {sorted(missing)}")
+        ck.unknown(f"global objects confirmed by hand no longer exist: {sorted(missing)}")
     # inert counter: uses of next_instance_id
     uses = []
     for q, fn in repo.all_functions():
